@@ -109,6 +109,21 @@ func c16Shape(shape string, n int) *lib.Build {
 			dir(fmt.Sprintf("m/d/x%05d", i))
 			link(fmt.Sprintf("m/l/s%05d", i), "../f00000")
 		}
+	case "bigfile": // one file of n full 64 KiB blocks + 17 bytes (n > 1024: more block markers from ONE file than
+		// the wound channel holds, all of them through the per-file relay), followed by a small file
+		data := make([]byte, n*lib.BS+17)
+		for blk := 0; blk*lib.BS < len(data); blk++ {
+			end := (blk + 1) * lib.BS
+			if end > len(data) {
+				end = len(data)
+			}
+			v := byte(blk*37 + 1)
+			for j := blk * lib.BS; j < end; j++ {
+				data[j] = v
+			}
+		}
+		file("a-big.bin", data)
+		file("z-small.bin", bytes.Repeat([]byte{5, 6, 7, 8}, 25))
 	case "empty":
 	}
 	sort.Slice(b.Entries, func(i, j int) bool { return b.Entries[i].Path < b.Entries[j].Path })
@@ -187,6 +202,22 @@ func c16Damage(signed *lib.Build, damage, firstFile, lastFile string) (tree *lib
 		mod("file", only(lastFile, trunc))
 	case "first-flip":
 		mod("file", only(firstFile, flip))
+	case "firstblock-flip": // the FIRST block of the first file: everything after it in that file is healthy
+		mod("file", only(firstFile, func(e *lib.Entry) *lib.Entry {
+			if len(e.Data) == 0 {
+				e.Data = []byte{42}
+			} else {
+				e.Data[0] ^= 0x55
+			}
+			return e
+		}))
+	case "blocks-alternate": // every even block of every file: wounds the aggregator cannot merge, a marker between any two
+		mod("file", func(e *lib.Entry) *lib.Entry {
+			for off := 0; off < len(e.Data); off += 2 * lib.BS {
+				e.Data[off] ^= 0x55
+			}
+			return e
+		})
 	case "dirs-missing":
 		mod("dir", func(e *lib.Entry) *lib.Entry {
 			if leafDir(e) {
@@ -707,6 +738,35 @@ func c16Abstract(b *c16Base, s c16Scn) string {
 			if first {
 				return bad(false)
 			}
+		case "firstblock-flip":
+			if first {
+				if blocks <= 1 {
+					return bad(false)
+				}
+				// the bad block first, then "several" healthy markers (more than the scaled capacity when
+				// the file has more blocks than the channel holds)
+				ms := []string{"FBad false false"}
+				for k := 0; k < hb && k < blocks-1; k++ {
+					ms = append(ms, "FHealthy")
+				}
+				return fmt.Sprintf("(FData %s FMNone [])", lib.CoqList(ms))
+			}
+		case "blocks-alternate":
+			switch {
+			case blocks == 0:
+				return healthy
+			case blocks == 1:
+				return bad(false)
+			}
+			var ms []string
+			for k := 0; k < blocks && k < 4; k++ {
+				if k%2 == 0 {
+					ms = append(ms, "FBad false false")
+				} else {
+					ms = append(ms, "FHealthy")
+				}
+			}
+			return fmt.Sprintf("(FData %s FMNone [])", lib.CoqList(ms))
 		}
 		return healthy
 	}
@@ -807,9 +867,13 @@ func runC16(c *Ctx) error {
 			cls = "corpus:" + corpus
 		}
 		total := b.nFiles + b.nDirs + b.nLinks
+		for _, nb := range b.blocksPer {
+			total += nb // one channel message (marker or wound) per block at most
+		}
 		cs := &lib.Case{Group: "proto", Class: cls,
-			Nontrivial: o.Damaged && (s.Cancel != "none" || total > 1024 || strings.HasPrefix(s.Damage, "last")),
-			Input:      s, Obs: o, Oracle: oracle,
+			Nontrivial: (o.Damaged && (s.Cancel != "none" || total > 1024 || strings.HasPrefix(s.Damage, "last"))) ||
+				(total > 1024 && s.Cancel != "none"),
+			Input: s, Obs: o, Oracle: oracle,
 			Coq: fmt.Sprintf("($ID%%N, %s, %s)", c16Abstract(b, s), map[string]string{"ok": "ONil", "error": "OErr", "panic": "OPanic", "hang": "OHang"}[o.Class])}
 		c.Out.Emit(cs)
 		return nil
@@ -839,6 +903,10 @@ func runC16(c *Ctx) error {
 		{"writer-fails-at-5th-dir-wound", c16Scn{Shape: "dirs", N: 1200, Damage: "dirs-missing", Consumer: "writer-limit", Cancel: "none", Procs: 1, FailN: 5}},
 		{"early-return/parent-asfile", c16Scn{"mixed", 420, "parent-asfile", "writer", "none", 0, 4, 0}},
 		{"zero-files/worker-error-after-loop", c16Scn{"empty", 0, "root-missing", "guardian", "none", 0, 4, 0}},
+		// seeded C16-1 (drain only after a consumer ERROR): a consumer that returned nil on a cancelled context
+		{"nil-early/writer-cancelled-before-1200-dir-wounds", c16Scn{"dirs", 1200, "dirs-missing", "writer", "before", 0, 4, 0}},
+		{"nil-early/printer-cancelled-before-1200-link-wounds", c16Scn{"links", 1200, "links-retarget", "printer", "before", 0, 1, 0}},
+		{"nil-early/printer-cancelled-at-the-5th-message", c16Scn{"links", 1200, "links-retarget", "printer", "message", 5, 16, 0}},
 	}
 	for _, x := range corpus {
 		if err := emit(x.s, x.name); err != nil {
@@ -846,21 +914,96 @@ func runC16(c *Ctx) error {
 		}
 	}
 
+	// nil-early sweep, on every run: a consumer that returns NIL before the channel is closed (the
+	// writer and the printer do when they notice a cancelled context) or an error (guardian, writer
+	// that cannot write) x a producer that still has more than 1024 messages to send at that moment,
+	// for every kind of producer: the directory pass and the symlink pass of the main goroutine
+	// (before the worker exists, `cancelled` cannot be closed yet), and the per-file relay of ONE file
+	// of more than 1024 blocks (healthy markers, or wounds the aggregator cannot merge) x the
+	// cancellation instants that exist there: before the call, at the k-th message (printer: after
+	// its k-th wound; symlink pass: main's own Debugf before the k-th wound), at the k-th progress
+	// callback inside the big file, timer. Cases of one tree are consecutive (the tree is reused).
+	type swRun struct {
+		cons, cancel string
+		k            int
+	}
+	type swTree struct {
+		shape  string
+		n      int
+		damage string
+		runs   []swRun
+	}
+	sweep := []swTree{
+		{"dirs", 2400, "dirs-missing", []swRun{{"writer", "before", 0}, {"printer", "before", 0}, {"printer-slow", "before", 0},
+			{"printer", "message", 1}, {"printer", "message", 5}, {"printer-slow", "message", 1025}, {"writer", "timer", 0},
+			{"guardian", "none", 0}, {"writer-badpath", "none", 0}}},
+		{"dirs", 2400, "parent-asfile", []swRun{{"writer", "before", 0}, {"printer", "message", 2}}},
+		{"dirs", 2400, "root-missing", []swRun{{"printer", "before", 0}, {"printer-slow", "message", 3}}},
+		{"dirs", 1025, "dirs-missing", []swRun{{"writer", "before", 0}, {"printer", "before", 0}}},
+		{"links", 2200, "links-retarget", []swRun{{"writer", "before", 0}, {"printer", "before", 0}, {"writer", "message", 1},
+			{"writer", "message", 1025}, {"printer", "message", 5}, {"writer", "timer", 50}}},
+		{"links", 2200, "links-missing", []swRun{{"writer", "before", 0}, {"writer", "message", 2}, {"printer-slow", "message", 100}}},
+		{"links", 2200, "links-asfile", []swRun{{"printer", "before", 0}, {"writer", "message", 5}}},
+		{"bigfile", 1100, "none", []swRun{{"writer", "progress", 1}, {"printer", "progress", 3}, {"printer-slow", "progress", 2},
+			{"writer", "progress", 1000}, {"guardian", "progress", 3}, {"writer", "before", 0}, {"writer", "lastprogress", 0}}},
+		{"bigfile", 1100, "firstblock-flip", []swRun{{"guardian", "none", 0}, {"writer-badpath", "none", 0}, {"printer", "progress", 5},
+			{"guardian", "before", 0}}},
+		{"bigfile", 1100, "blocks-alternate", []swRun{{"writer", "none", 0}, {"writer", "progress", 10}, {"printer", "message", 3},
+			{"guardian", "none", 0}}},
+	}
+	if c.Thorough() {
+		sweep = append(sweep,
+			swTree{"mixed", 1100, "everything", []swRun{{"writer", "before", 0}, {"printer", "message", 1030}, {"writer", "message", 7}}},
+			swTree{"dirs", 1024, "dirs-missing", []swRun{{"writer", "before", 0}, {"printer", "message", 1}}},
+			swTree{"dirs", 5000, "dirs-asfile", []swRun{{"writer", "before", 0}, {"printer", "message", 2048}, {"writer", "timer", 200}}},
+			swTree{"links", 5000, "everything", []swRun{{"writer", "message", 2049}, {"printer-slow", "message", 1}}},
+			swTree{"bigfile", 2100, "blocks-alternate", []swRun{{"writer", "progress", 1}, {"printer", "message", 1}, {"guardian", "none", 0},
+				{"writer-badpath", "none", 0}}},
+			swTree{"bigfile", 2100, "files-short", []swRun{{"writer", "progress", 7}, {"guardian", "none", 0}}},
+		)
+	}
+	reps := 1
+	if c.Thorough() {
+		reps = 3 // every GOMAXPROCS value for every case
+	}
+	if c.Tier != "search" {
+		swi := 0
+		for _, t := range sweep {
+			for _, x := range t.runs {
+				for rep := 0; rep < reps; rep++ {
+					s := c16Scn{Shape: t.shape, N: t.n, Damage: t.damage, Consumer: x.cons, Cancel: x.cancel, CancelK: x.k,
+						Procs: []int{4, 1, 16}[(swi+rep)%3]}
+					if err := emit(s, ""); err != nil {
+						return err
+					}
+				}
+				swi++
+			}
+		}
+		for k, b := range bases { // 70-140 MB each: do not keep them
+			if strings.HasPrefix(k, "bigfile-") && b.nFiles > 0 {
+				delete(bases, k)
+			}
+		}
+	}
+
 	type shp struct {
 		shape string
 		n     int
 	}
-	shapes := []shp{{"files", 1100}, {"files", 1100}, {"dirs", 1200}, {"links", 1200}, {"mixed", 420}, {"blocks", 8}, {"files", 40}, {"files", 2}, {"files", 1}, {"empty", 0}}
-	if c.Thorough() {
-		shapes = append(shapes, shp{"files", 1500}, shp{"files", 3000}, shp{"mixed", 1100}, shp{"blocks", 40}, shp{"files", 1025}, shp{"dirs", 1024})
+	shapes := []shp{{"files", 1100}, {"files", 1100}, {"dirs", 1200}, {"links", 1200}, {"mixed", 420}, {"blocks", 8}, {"files", 40}, {"files", 2}, {"files", 1}, {"empty", 0},
+		{"dirs", 2400}, {"links", 2200}}
+	if c.Thorough() { // (a bigfile tree is 70 MB to write and read back: quick runs have it in the sweep only)
+		shapes = append(shapes, shp{"bigfile", 1100}, shp{"files", 1500}, shp{"files", 3000}, shp{"mixed", 1100}, shp{"blocks", 40}, shp{"files", 1025}, shp{"dirs", 1024})
 	}
 	damagesFor := map[string][]string{
-		"files":  {"none", "files-flip", "files-missing", "files-short", "files-long", "files-asdir", "last-flip", "last-missing", "last-short", "first-flip", "root-missing"},
-		"dirs":   {"none", "dirs-missing", "dirs-asfile", "last-flip", "root-missing", "everything", "parent-asfile"},
-		"links":  {"none", "links-retarget", "links-missing", "links-asfile", "last-missing", "root-missing", "everything"},
-		"mixed":  {"none", "everything", "files-flip", "dirs-missing", "links-retarget", "links-missing", "last-flip", "root-missing", "parent-asfile"},
-		"blocks": {"none", "files-flip", "files-short", "files-long", "files-missing", "last-flip", "last-short", "first-flip"},
-		"empty":  {"none", "root-missing"},
+		"files":   {"none", "files-flip", "files-missing", "files-short", "files-long", "files-asdir", "last-flip", "last-missing", "last-short", "first-flip", "root-missing"},
+		"dirs":    {"none", "dirs-missing", "dirs-asfile", "last-flip", "root-missing", "everything", "parent-asfile"},
+		"links":   {"none", "links-retarget", "links-missing", "links-asfile", "last-missing", "root-missing", "everything"},
+		"mixed":   {"none", "everything", "files-flip", "dirs-missing", "links-retarget", "links-missing", "last-flip", "root-missing", "parent-asfile"},
+		"blocks":  {"none", "files-flip", "files-short", "files-long", "files-missing", "last-flip", "last-short", "first-flip", "firstblock-flip", "blocks-alternate"},
+		"bigfile": {"none", "files-flip", "files-short", "files-long", "files-missing", "last-flip", "first-flip", "firstblock-flip", "blocks-alternate"},
+		"empty":   {"none", "root-missing"},
 	}
 	// consumers that do not write into the target first, so that one tree serves the group
 	consumers := []string{"guardian", "guardian", "guardian", "writer", "printer", "printer-slow", "writer-badpath"}
@@ -887,6 +1030,9 @@ func runC16(c *Ctx) error {
 			}
 			if k == 0 {
 				s.Consumer = "guardian"
+			}
+			if sh.shape == "bigfile" && strings.HasPrefix(s.Consumer, "healer") {
+				s.Consumer = "healer-noarchive" // no 70 MB archives
 			}
 			if k == 1 && ((sh.shape == "files" && damage == "files-flip") || (sh.shape == "dirs" && damage == "dirs-missing")) {
 				s.Consumer = "writer-limit"
